@@ -2654,10 +2654,6 @@ impl Server {
         // Extract key and value
         let key = match &parts[1] {
             RespFrame::BulkString(Some(bytes)) => {
-                // Redis compliance: Empty string keys are not allowed
-                if bytes.is_empty() {
-                    return Ok(RespFrame::error("ERR invalid key: empty string keys are not allowed"));
-                }
                 bytes.as_ref().clone()
             }
             _ => return Ok(RespFrame::error("ERR invalid key format")),
@@ -2794,10 +2790,6 @@ impl Server {
         
         let key = match &parts[1] {
             RespFrame::BulkString(Some(bytes)) => {
-                // Redis compliance: Empty string keys are not allowed
-                if bytes.is_empty() {
-                    return Ok(RespFrame::error("ERR invalid key: empty string keys are not allowed"));
-                }
                 bytes.as_ref()
             }
             _ => return Ok(RespFrame::error("ERR invalid key format")),
@@ -2828,10 +2820,6 @@ impl Server {
         
         let key = match &parts[1] {
             RespFrame::BulkString(Some(bytes)) => {
-                // Redis compliance: Empty string keys are not allowed
-                if bytes.is_empty() {
-                    return Ok(RespFrame::error("ERR invalid key: empty string keys are not allowed"));
-                }
                 bytes.as_ref().clone()
             }
             _ => return Ok(RespFrame::error("ERR invalid key format")),
@@ -2868,10 +2856,6 @@ impl Server {
         
         let key = match &parts[1] {
             RespFrame::BulkString(Some(bytes)) => {
-                // Redis compliance: Empty string keys are not allowed
-                if bytes.is_empty() {
-                    return Ok(RespFrame::error("ERR invalid key: empty string keys are not allowed"));
-                }
                 bytes.as_ref().clone()
             }
             _ => return Ok(RespFrame::error("ERR invalid key format")),
